@@ -127,6 +127,16 @@ Consume ==
                /\ UNCHANGED <<cur, skip, s, pendReq, mids, known, nexec, rstate, maxrtx, lastChange, errmode>>
        [] e.e = "Crash" -> /\ rej' = Append(rej, [id |-> cur, line |-> l, why |-> "C11:driver-crashed"]) /\ skip' = TRUE
                            /\ UNCHANGED <<cur, s, pendReq, mids, known, nexec, rstate, maxrtx, lastChange, errmode>>
+       \* direction A: the behaviour was generated by TLC from Gen_Observe; after each command it says which (client, resource) pairs are registered;
+       \* the driver logs the subscriber lists libcoap holds next to it
+       [] e.e = "Expect" /\ ~skip ->
+            LET R == {e.reg[i] : i \in 1..Len(e.reg)}
+                I == {e.impl[i] : i \in 1..Len(e.impl)}
+                bad == R # I \/ Len(e.impl) # Cardinality(I) IN
+            /\ rej' = IF bad THEN Append(rej, [id |-> cur, line |-> l, why |-> IF R # I THEN "C11:registered-observers-differ-from-the-behaviour-the-specification-generated"
+                                                                                 ELSE "C11:observer-entry-duplicated"]) ELSE rej
+            /\ skip' = bad
+            /\ UNCHANGED <<cur, s, pendReq, mids, known, nexec, rstate, maxrtx, lastChange, errmode>>
        [] OTHER -> UNCHANGED <<rej, cur, skip, s, pendReq, mids, known, nexec, rstate, maxrtx, lastChange, errmode>>
   /\ l' = l + 1
 Finish == /\ l = Len(TraceLog) + 1
